@@ -95,7 +95,7 @@ package datafile
 // ---------------------------------------------------------------------------------------------
 
 //@ func (*datafile.DataReader).next
-//@   props C11 C12 C02 C03 C17
+//@   props C11 C12 C02 C03 C17 C18
 //@   requires [inv-reader] len(reader.blockBuf) == 32768 && reader.offset + 7 < 32768
 //@   requires [inv-df]     reader.dataFile != nil && reader.dataFile.ReadWriter != nil && reader.dataFile.lastBlockSize < 32768 && reader.dataFile.lastBlockID <= 1073741824
 //@   requires [pos-bound]  reader.blockID <= reader.dataFile.lastBlockID + 1
@@ -123,7 +123,7 @@ package datafile
 //@     invariant [res-own] arr(res) == 0 || fresh(res)
 
 //@ func (*datafile.DataFile).readToBuf
-//@   props C11 C12 C01
+//@   props C11 C12 C01 C08 C09
 //@   requires [inv-df]  df.ReadWriter != nil && df.lastBlockSize < 32768 && df.lastBlockID <= 1073741824
 //@   requires [offset]  offset < 32768
 //@   ensures [buf-own]  arr(buf.B) == old(arr(buf.B)) || fresh(buf.B)
@@ -336,7 +336,7 @@ package datafile
 //@   modifies nothing
 
 //@ func (*datafile.DataReader).NextLogRecord
-//@   props C11 C12 C02 C03
+//@   props C11 C12 C02 C03 C18 C17
 //@   requires [inv-reader] INV_reader(reader)
 //@   requires [kind]   reader.dataFile.kind == DataFileSuffix
 //@   let fsz = reader.dataFile.lastBlockID * 32768 + reader.dataFile.lastBlockSize
